@@ -95,3 +95,55 @@ def register(claim):
           "checked per reveal; each registered norm is also compared with its defining formula.",
           "Class-matched pairs only (premise re-checked independently); exploitability tolerance 1e-9*scale*2^n.",
           "DESIGN.md section 5, C07")
+    claim("C11", "exploration",
+          f"{SIM}: exhaustive search / best-states / meta-game run under a deterministic stand-in for "
+          "multiprocessing.Pool (seeded chunk->worker schedules, worker counts 1..16, fork/fresh process images); "
+          "fresh-object oracle per reveal set; differential over schedules; stub calibrated against the real pool",
+          "For seeded (game, starting knowledge, k, computer, gap) the enumeration is compared with the set of all "
+          "subsets (each exactly once), every reported value bit-for-bit with a fresh object told start+set, results "
+          "across 2..3 pool configurations per run, MetaGame.get_value with the search value, and best-states with "
+          "an independent per-size minimum over all sets recomputed from the sampled games. n <= 4.",
+          "SimPool is a model of the pool (task-granular, no worker death); its fidelity is calibrated bit-for-bit "
+          "against the real pool on deterministic configurations inside the check.",
+          "DESIGN.md section 5, C11")
+    claim("C12", "exploration",
+          f"{SIM}: evaluate() under the simulated pool for seeded (processes, image model, chunk->worker schedule) "
+          "configurations vs its sequential run; hidden game of every repetition observed through a "
+          "simulator-owned side channel; trajectories replayed on fresh objects",
+          "Clause (a) true trajectories is decided for every evaluation by replaying the recorded coalition ids on "
+          "a fresh object over the hidden game that repetition really saw; clause (b) parallelism invariance and "
+          "(c) independence by differential comparison across configurations from one seed. The two defects of the "
+          "pinned tree (per-chunk pickled random state of the ModelInstance generator and of RandomSolver) are "
+          "listed known findings; every other violation is reported.",
+          "Known findings are matched by an oracle-computed signature (clause, environment source, random solver, "
+          "processes>1); n = 3..4; SimPool calibrated against the real pool inside the check.",
+          "DESIGN.md section 5, C12")
+    claim("C13", "exploration",
+          f"{SIM}: (i) solver decisions at states reached by seeded client histories (step/unstep/reset/torn step) "
+          "against independently recomputed rewards + before/after snapshots; (ii) expected-greedy under the "
+          "simulated pool across schedules against an exhaustive recomputation",
+          "Every registered solver is asked at reached states and its choice compared with its rule evaluated on "
+          "rewards recomputed on fresh objects (ties to the lowest index), with bit-exact environment snapshots "
+          "before/after; expected-greedy curves are recomputed per step, compared with the minimum over remaining "
+          "coalitions and with the exhaustive optimum, and across pool configurations.",
+          "n = 3..5 for (i), 3..4 for (ii); randomised expected-greedy accepted within its documented 1e-6.",
+          "DESIGN.md section 5, C13")
+    claim("C16", "exploration",
+          f"{SIM}: legacy global numpy stream (the wrapper's tie-break source) set from the tape before every step; "
+          "wrapper compared with the inner environment and the reference model after every call",
+          "Seeded sequences of allowed sizes until done (with resets), tie-breaks explored and replayable through "
+          "the RNG seam; mask, exactly-one-new-coalition of the right size, info, reward/done pass-through and the "
+          "per-size aggregation of the observation are checked after reset and every step.",
+          "n = 3..6; the inner environment is judged by the C09 oracle in the same run.",
+          "DESIGN.md section 5, C16")
+    claim("C19", "exploration",
+          f"{SIM}: save histories through the storage seam (fault-free, buffering/short-write knobs) against an "
+          "ordered-dict reference model via both readers; end-to-end commands through the real parser under "
+          "SimPool + SimFS with the computed matrices captured at the call boundary",
+          "After every save of a seeded history (repeated / empty / unicode names, NaN / inf / float32 / 3-D / "
+          "non-JSON metadata) the whole file is read back through both readers and compared entry by entry with "
+          "the model; repeated names must leave the bytes unchanged; for solve / greedy / ugreedy / best_states the "
+          "stored matrices must equal what evaluate / the search returned.",
+          "Fault-free by the statement (crashes are C20); plot savers are stubbed; metadata compared up to JSON "
+          "stringification (non-native values must come back as strings).",
+          "DESIGN.md section 5, C19")
